@@ -105,6 +105,8 @@ def cast_to_binary(value, from_type, options):
 
 
 def cast_to_date(value, from_type, options):
+    if value is None:
+        return None
     if isinstance(value, datetime.datetime):
         return value.date()
     if isinstance(value, datetime.date):
@@ -299,7 +301,7 @@ def cast_to_float(value, from_type, options):
 
 
 def cast_value(value, options):
-    if value == "":
+    if value == "" or value is None:
         return None
     if isinstance(value, datetime.datetime):
         return value.timestamp()
